@@ -883,7 +883,7 @@ class PathCond:
         res = memo.get(target, set())
         if phi["locals"] and not keep_phi:
             res = _absorb({frozenset(at for at in cs if at[0][0] != "phi") for cs in res})
-        return res
+        return _count_closure(res)
 
     # phi locals ----------------------------------------------------------------------------
     def _phi(self):
@@ -1026,6 +1026,61 @@ def _add_atom(cs, a):
             a = (a[0], ("not-in", merged))
             weaker = weaker + others
     return (cs - frozenset(weaker)) | {a}
+
+
+def _is_count(x):
+    """an expression that denotes a length (a non-negative integer)"""
+    return x[0] == "len" or (x[0] == "call" and isinstance(x[1], str) and x[1].endswith("::len"))
+
+
+def _count_closure(dnf):
+    """Integer reasoning on lengths: `len > 1` false and `len != 0` is `len = 1`; `len > 1` true
+    excludes 0 and 1.  A three-arm `match len {0, 1, _}` and a chain of guards read alike."""
+    out = set()
+    for cs in dnf:
+        by = {}
+        for (e, v) in cs:
+            if e[0] == "bin" and e[1] == "Gt" and isinstance(v, bool) and _is_count(e[2]) and _const_int(e[3]) is not None:
+                by.setdefault(show(e[2]), []).append((e, v))
+        if not by:
+            out.add(cs)
+            continue
+        cur = cs
+        for xs, gts in by.items():
+            x = gts[0][0][2]
+            same = [e for (e, v) in cur if show(e) == xs]
+            if same:
+                x = same[0]       # the spelling the equalities / exclusions already use
+            lo = max([_const_int(e[3]) + 1 for (e, v) in gts if v] or [0])
+            his = [_const_int(e[3]) for (e, v) in gts if not v]
+            hi = min(his) if his else None
+            excl, eq = set(), None
+            for (e, v) in cs:
+                if show(e) == xs:
+                    if isinstance(v, tuple) and v and v[0] == "not-in":
+                        excl |= {y for y in v[1] if isinstance(y, int)}
+                    elif isinstance(v, int) and not isinstance(v, bool):
+                        eq = v
+            if eq is not None:
+                if eq < lo or (hi is not None and eq > hi):
+                    cur = None
+                    break
+                continue
+            if hi is not None and hi - lo <= 4:
+                allowed = [k for k in range(lo, hi + 1) if k not in excl]
+                if not allowed:
+                    cur = None
+                    break
+                if len(allowed) == 1:
+                    cur = frozenset(at for at in cur if show(at[0]) != xs) | {(x, allowed[0])}
+                    continue
+            if 0 < lo <= 4:
+                cur = _add_atom(cur, (x, ("not-in", tuple(range(lo)))))
+                if cur is None:
+                    break
+        if cur is not None:
+            out.add(cur)
+    return out
 
 
 def _negate_atom(a):
